@@ -81,10 +81,10 @@ class Exec:
 
     def need_not_none(self, v, st, node, what="value"):
         if v is None:
-            self.oblige(f"not_none.L{getattr(node, 'lineno', 0)}", "none", st, z3.BoolVal(False), node)
+            self.oblige(f"not_none", "none", st, z3.BoolVal(False), node)
             raise Unsupported(f"definitely-None {what} used at line {getattr(node, 'lineno', 0)}")
         if isinstance(v, Opt):
-            self.oblige(f"not_none.L{getattr(node, 'lineno', 0)}", "none", st, z3.Not(v.none), node)
+            self.oblige(f"not_none", "none", st, z3.Not(v.none), node)
             return v.val
         return v
 
@@ -183,6 +183,10 @@ class Exec:
         raise Unsupported(f"unary {type(n.op).__name__}")
 
     def arith(self, op, l, r, st, node, spec):
+        if isinstance(l, Opt):
+            l = l.val if spec else self.need_not_none(l, st, node)
+        if isinstance(r, Opt):
+            r = r.val if spec else self.need_not_none(r, st, node)
         if isinstance(l, CArr) and isinstance(op, (ast.Add, ast.Sub)):
             k = zint(r)
             return CArr(l.arr, l.n, l.off + (k if isinstance(op, ast.Add) else -k), l.name)
@@ -219,7 +223,7 @@ class Exec:
             return l * r
         if isinstance(op, ast.FloorDiv):
             if not spec:
-                self.oblige(f"div_nonzero.L{node.lineno}", "div", st, r != 0, node)
+                self.oblige(f"div_nonzero", "div", st, r != 0, node)
             if z3.is_real(l):
                 return z3.ToReal(z3.ToInt(l / r))
             if self.cx.ex.ctypes and not spec:
@@ -228,13 +232,13 @@ class Exec:
             return py_floordiv(l, r)
         if isinstance(op, ast.Div):
             if not spec:
-                self.oblige(f"div_nonzero.L{node.lineno}", "div", st, r != 0, node)
+                self.oblige(f"div_nonzero", "div", st, r != 0, node)
             if z3.is_int(l):
                 l, r = z3.ToReal(l), z3.ToReal(r)
             return l / r
         if isinstance(op, ast.Mod):
             if not spec:
-                self.oblige(f"div_nonzero.L{node.lineno}", "div", st, r != 0, node)
+                self.oblige(f"div_nonzero", "div", st, r != 0, node)
             return py_mod(l, r)
         if isinstance(op, ast.Pow):
             lr, rr = z3.simplify(l), z3.simplify(r)
@@ -366,6 +370,15 @@ class Exec:
             self.need_not_none(base, st, node, f".{attr}")
         if isinstance(base, ObjV):
             if attr in base.fields:
+                tag = base.fields.get("__cls__")
+                props = self.world.property_overrides(base.cls, attr)
+                if props and tag is not None:
+                    val = base.fields[attr]
+                    for pcls, concrete in props:
+                        sub = ObjV(pcls, {k: v for k, v in base.fields.items() if k != attr})
+                        pv = self.call_method(sub, attr, [], {}, st, node, spec)[0]
+                        val = merge_val(z3.Or(*[tag == self.world.cls_tag(cn) for cn in concrete]), pv, val)
+                    return val
                 return base.fields[attr]
             h = self.world.attr_handler(base.cls, attr)
             if h is not None:
@@ -435,7 +448,7 @@ class Exec:
         if isinstance(base, CArr):
             i = base.off + zint(idx)
             if not spec:
-                self.oblige(f"bounds.{base.name}.L{getattr(node, 'lineno', 0)}", "bounds", st,
+                self.oblige(f"bounds.{base.name}", "bounds", st,
                             z3.And(0 <= i, i < base.n), node)
             if isinstance(base.arr, dict):
                 return ObjV("__struct__", {f: a[i] for f, a in base.arr.items()})
@@ -445,7 +458,7 @@ class Exec:
             i = zint(idx)
             j = z3.If(i < 0, i + s.n, i)
             if not spec:
-                self.oblige(f"index.L{getattr(node, 'lineno', 0)}", "index", st, z3.And(0 <= j, j < s.n), node)
+                self.oblige(f"index", "index", st, z3.And(0 <= j, j < s.n), node)
             if isinstance(base, PyConst) and isinstance(base.v, bytes):
                 return s.arr[j]
             return StrV(z3.Store(z3.K(I, z3.IntVal(0)), 0, s.arr[j]), z3.IntVal(1))
@@ -457,13 +470,13 @@ class Exec:
             if z3.is_int_value(i):
                 k = i.as_long()
                 if not (-len(items) <= k < len(items)):
-                    self.oblige(f"index.L{getattr(node, 'lineno', 0)}", "index", st, z3.BoolVal(False), node)
+                    self.oblige(f"index", "index", st, z3.BoolVal(False), node)
                     raise Unsupported("constant index out of range")
                 return items[k]
             if not items:
                 raise Unsupported("index into empty sequence")
             if not spec:
-                self.oblige(f"index.L{getattr(node, 'lineno', 0)}", "index", st, z3.And(0 <= i, i < len(items)), node)
+                self.oblige(f"index", "index", st, z3.And(0 <= i, i < len(items)), node)
             res = items[-1]
             for k in range(len(items) - 2, -1, -1):
                 res = merge_val(i == k, items[k], res)
@@ -472,7 +485,7 @@ class Exec:
             i = zint(idx)
             j = z3.If(i < 0, i + base.n, i)
             if not spec:
-                self.oblige(f"index.L{getattr(node, 'lineno', 0)}", "index", st, z3.And(0 <= j, j < base.n), node)
+                self.oblige(f"index", "index", st, z3.And(0 <= j, j < base.n), node)
             return self.world.wrap_elem(self, base, base.arr[j], st)
         if isinstance(base, MapV):
             return base.arr[zint(idx)]
